@@ -5,6 +5,7 @@
 # conditional terms, intervals) lives in rules/c19.py and is shared.
 
 import ast
+import itertools
 import json
 import os
 import re
@@ -52,7 +53,11 @@ EXPLANATION = (
     "may return a memo of resolve() only under guards on the HoppingParams object and the frame number, every store to the memo "
     "(read from the source as written) being None or (object, fn, object.resolve(fn)). The firmware's use of the generator is read from "
     "the value rfch_get_params() stores through its ARFCN output parameter (forward substitution, helpers handed the caller's time "
-    "substituted): every generator call that reaches it takes rfch_get_params()'s own time and the (hsn, maio, n, ma) of one descriptor.")
+    "substituted): every generator call that reaches it takes rfch_get_params()'s own time and the (hsn, maio, n, ma) of one descriptor; "
+    "an argument computed from descriptor fields (the allocation length clamped to the size of the ma[] table) is decided over the "
+    "finite domain of the fields it reads (HSN, MAIO in 0..63, N in 1..64) -- by intervals over the domain box, else by folding every "
+    "valuation -- and counts as the field it equals there; a value of the domain on which it differs is reported with a frame on "
+    "which the generator then selects another channel.")
 ASSUMPTIONS = [
     "spec/hopping.json is a faithful transcription of TS 45.002 table 6.2.3 and of the algorithm of clause 6.2.3",
     "NBIN is the number of bits needed to represent N (TS 45.002 6.2.3), so 2^NBIN - 1 == (1 << N.bit_length()) - 1; the mask is "
@@ -1152,7 +1157,7 @@ def _hop_uses_by_value(cs, g, gp):
         if x[0] == "call" and x[1] == cs.HOP:
             args = [G.show(a) for a in x[2:]]
             if args not in [u[0] for u in uses]:
-                uses.append((args, tu.line(g)))
+                uses.append((args, tu.line(g), list(x[2:])))
     return uses
 
 
@@ -1190,11 +1195,113 @@ def _hop_uses_by_call_graph(cs, g, gp):
                 args[0] = gp[0]
             elif args and n != gname:
                 args[0] = "%s in %s()" % (args[0], n)
-            uses.append((args, tu.line(c)))
+            uses.append((args, tu.line(c), None))
     return uses
 
 
-def r6_c_use(L, cs):
+USE_ROLES = ("hsn", "maio", "n")
+USE_DOMAIN = {"hsn": (0, 63), "maio": (0, 63), "n": (1, 64)}       # the property's domain of each descriptor field
+
+
+def _field_role(text):
+    for r in USE_ROLES:
+        if text.endswith("." + r) or text.endswith("->" + r):
+            return r
+    return None
+
+
+def _use_witness(rntable, role, vals, got):
+    """a frame on which the generator, handed `got` in place of the descriptor's `role`, selects another channel than
+    TS 45.002 6.2.3 does for the descriptor (hsn, maio, n) = vals: text, or None when no tried frame differs"""
+    want = dict(vals)
+    for r in USE_ROLES:
+        want.setdefault(r, {"hsn": 1, "maio": 0, "n": 5}[r])
+    hand = dict(want, **{role: got})
+    for hsn in sorted({want["hsn"], 0, 1, 63}) if "hsn" not in vals and role != "hsn" else (want["hsn"],):
+        a = dict(want, hsn=hsn)
+        b = dict(hand, hsn=hand["hsn"] if role == "hsn" else hsn)
+        for fn in list(range(0, 2 * 1326)) + [FN_T1_64, FN_LAST]:
+            mai = ref_select(rntable, a["hsn"], a["maio"], a["n"], fn)[0]
+            if not (1 <= b["n"] <= 64 and 0 <= b["hsn"] <= 63 and b["maio"] >= 0):
+                return "HSN = %d, MAIO = %d, N = %d: the generator is handed %s = %d, outside 3GPP TS 45.002 6.2.3" % (
+                    a["hsn"], a["maio"], a["n"], role, got)
+            sel = ref_select(rntable, b["hsn"], b["maio"], b["n"], fn)[0]
+            if sel != mai:
+                return "HSN = %d, MAIO = %d, N = %d, FN = %d: MA[%d] expected, the generator handed %s = %d selects MA[%d]" % (
+                    a["hsn"], a["maio"], a["n"], fn, mai, role, got, sel)
+    return None
+
+
+def settle_use_argument(L, cs, role, term, line, rntable):
+    """An argument of the generator call that is *computed* from fields of the hopping descriptor (a clamp, a mask, a
+    conversion).  The property quantifies over HSN, MAIO in 0..63 and N in 1..64 only, so the argument is decided over
+    that finite domain: (1) structurally -- the conditions / reductions of the term are decided by intervals over the
+    domain box (G.prune: sound for every valuation) and the term collapses to the descriptor's field; (2) otherwise by
+    folding the term (checker-side arithmetic on the normal form) for every value of the fields it reads: equal to
+    the field `role` everywhere -> it *is* that field on the property's domain (complete: the domain is finite); a
+    value of the domain on which it differs is confirmed by a frame on which the generator then selects another
+    channel than TS 45.002 6.2.3 (violation, reported with it).  Returns the field's term, or None after a violation was
+    recorded.  AnalysisError when the term reads anything but descriptor fields or leaves the folder's arithmetic."""
+    vs = sorted(variables(term), key=repr)
+    roles = {v: _field_role(v[1]) for v in vs}
+    what = "rfch_get_params(): rfch_hop_seq_gen is handed `%s`" % G.show(term)[:80]
+    if not vs or any(r is None for r in roles.values()) or G.heads(term) & {"call", "idx", "post", "loop"}:
+        raise AnalysisError("%s; unclassifiable" % what)
+    if len(vs) > 2:
+        raise AnalysisError("%s for the parameter %s; unclassifiable" % (what, role))
+    own = [v for v in vs if roles[v] == role]
+    box = {v: USE_DOMAIN[roles[v]] for v in vs}
+    dom = ", ".join("%s in %d..%d" % ((roles[v],) + USE_DOMAIN[roles[v]]) for v in vs)
+    key = "the %s handed to rfch_hop_seq_gen, computed as `%s`, is one field of the hopping descriptor for every %s of the " \
+        "property's domain" % (role, G.show(term)[:160], dom)
+    # the terms are mathematical: they are what the C code computes only while no intermediate value can be truncated by
+    # a store into a uint8_t local / parameter (the descriptor fields and the generator's parameters are uint8_t)
+    for x in G.subterms(term):
+        iv = G.interval(x, box)
+        if not (iv[0] >= 0 and iv[1] <= 255):
+            raise AnalysisError("%s: the intermediate value `%s` is in %s on the property's domain and may not survive a uint8_t "
+                                "conversion; unclassifiable" % (what, G.show(x)[:60], G.ivtxt(iv)))
+    log = []
+    pruned = G.prune(term, box, None, None, log)
+    if pruned in vs:
+        L.ob("C07.R6", F_RFCH, "rfch_get_params", key, "a descriptor field",
+             "%s (interval decision over the domain box: %s)" % (G.show(pruned), "; ".join(sorted(
+                 {"%s is always %s" % (G.show(c)[:80], "true" if v else "false") for c, v in log})) or "normal form"), True, line)
+        return pruned
+    # exhaustive fold over the finite domain of the fields read
+    k, differs = 0, {v: [] for v in vs}
+    for combo in itertools.product(*[range(box[v][0], box[v][1] + 1) for v in vs]):
+        env = dict(zip(vs, combo))
+        got = eval_term(term, env)
+        if got is None:
+            raise AnalysisError("%s, which cannot be folded for %s; unclassifiable" % (
+                what, ", ".join("%s = %d" % (roles[v], env[v]) for v in vs)))
+        k += 1
+        for v in vs:
+            if got != env[v]:
+                differs[v].append((env, got))
+    same = [v for v in vs if not differs[v]]
+    if same:
+        v = own[0] if own and own[0] in same else same[0]
+        L.ob("C07.R6", F_RFCH, "rfch_get_params", key, "a descriptor field",
+             "equal to %s for all %d valuations of the domain (folded; complete)" % (G.show(v), k), True, line)
+        return v
+    if len(own) != 1:
+        raise AnalysisError("%s for the parameter %s; unclassifiable" % (what, role))
+    bad = differs[own[0]]
+    for env, got in bad[:8]:
+        w = _use_witness(rntable, role, {roles[v]: env[v] for v in vs}, got)
+        if w is not None:
+            L.ob("C07.R6", F_RFCH, "rfch_get_params",
+                 "the %s handed to rfch_hop_seq_gen, computed as `%s`, is the descriptor's %s for every %s of the property's "
+                 "domain" % (role, G.show(term)[:160], role, dom), G.show(own[0]),
+                 "differs for %d of %d valuations of the domain, e.g. %s" % (len(bad), k, w), False, line)
+            return None
+    raise AnalysisError("%s, which differs from the descriptor's %s for %s but selects the same channel on every frame tried; "
+                        "unclassifiable" % (what, role, ", ".join("%s = %d" % (roles[v], bad[0][0][v]) for v in vs)))
+
+
+def r6_c_use(L, cs, rntable):
     # firmware: rfch_get_params hands its own time and the h1 parameters to the generator -- decided on the value stored
     # through the ARFCN output parameter, so the call may sit in rfch_get_params() itself or in a helper it calls
     tu = cs.tu
@@ -1210,9 +1317,25 @@ def r6_c_use(L, cs):
     L.extra["generator_use"] = how
     L.floor("C07.R6", "rfch_hop_seq_gen calls that determine the ARFCN returned by rfch_get_params", len(uses), 1)
     plain = re.compile(r"(&|addr\()?[A-Za-z_][\w.\[\]>-]*\)?( in \w+\(\))?$")
-    for args, line in uses:
+    for args, line, terms in uses:
         roles = ["hsn", "maio", "n", "ma"]
+        if terms is not None and len(terms) == 5:
+            # computed arguments are decided over the property's finite domain of the descriptor fields they read
+            args, violated = list(args), False
+            for i, role in enumerate(USE_ROLES, 1):
+                if terms[i][0] != "v":
+                    v = settle_use_argument(L, cs, role, terms[i], line, rntable)
+                    if v is None:
+                        violated = True
+                    else:
+                        args[i] = G.show(v)
+            if violated:
+                continue
         odd = [a for a in args if not plain.match(a)]
+        if terms is None:
+            # call sites read as written (no forward substitution): a bare local / parameter name says nothing about
+            # the value it holds
+            odd += [a for a in args[1:] if re.match(r"[A-Za-z_]\w*$", a)]
         if odd:
             # an argument that is computed (masked, converted, selected) is not one of the recognised wrong shapes
             raise AnalysisError("rfch_get_params(): rfch_hop_seq_gen is handed `%s`; unclassifiable" % odd[0][:80])
@@ -1439,4 +1562,4 @@ def run(L, tier):
     L.stage(r5_c_bound, L, cs_s, ctab)
     L.stage(r6_py_returns, L, py_s)
     L.stage(r6_getters, L, repo)
-    L.stage(r6_c_use, L, cs)
+    L.stage(r6_c_use, L, cs, spec["RNTABLE"])
